@@ -250,11 +250,12 @@ Record Good (s : st) : Prop := {
   G_inv : Inv s;
   G_same : v_cur s = d_cur s;
   G_nf : failed s = false;
-  G_live : forall d, live s = Some d -> exists i, v_cur s = Some i /\ i_synced (inodes s i) = Some d
+  G_live : forall d, live s = Some d -> exists i, v_cur s = Some i /\ i_synced (inodes s i) = Some d;
+  G_upd : live s <> None -> v_upd s = None
 }.
 
 Lemma Good0 : Good st0.
-Proof. constructor; [exact Inv0|reflexivity|reflexivity|discriminate]. Qed.
+Proof. constructor; [exact Inv0|reflexivity|reflexivity|discriminate|reflexivity]. Qed.
 
 Lemma bump_inv h s : Inv s -> Inv (bump h s).
 Proof.
@@ -264,7 +265,7 @@ Proof.
 Qed.
 
 Lemma bump_good h s : Good s -> Good (bump h s).
-Proof. intros [HI H1 H2 H3]. constructor; [now apply bump_inv|destruct h; assumption..]. Qed.
+Proof. intros [HI H1 H2 H3 H4]. constructor; [now apply bump_inv|destruct h; assumption..]. Qed.
 
 Lemma crash_good pick s : Inv s -> Good (crash pick s).
 Proof.
@@ -275,6 +276,7 @@ Proof.
   constructor; [constructor|..]; cbn; try assumption; try reflexivity; try discriminate.
   - intros x. destruct (Idb x). lia.
   - intros j Hj. split; now apply Idu.
+  - intros H. now contradiction H.
 Qed.
 
 Lemma points_cur l s i c : points l s (Some i) -> i_synced (inodes s i) = Some c -> In c l /\ ack s <= dur (dbs s c).
@@ -286,7 +288,7 @@ Ltac pcbn := cbn [inodes ninodes v_cur v_upd d_cur d_upd v_dbs d_dbs dbs live ne
 
 Lemma hop_safe_good h s : Good s -> Safe (expand h s) (bump h s) /\ Good (exec (expand h s) (bump h s)).
 Proof.
-  intros HG. pose proof HG as [HI Hsame Hnf Hlive]. pose proof (bump_inv h s HI) as HB.
+  intros HG. pose proof HG as [HI Hsame Hnf Hlive Hupd]. pose proof (bump_inv h s HI) as HB.
   destruct h; unfold expand; cbn [expand_gen].
   - (* HOpen *)
     destruct (v_cur s) as [i|] eqn:Ev.
@@ -312,6 +314,7 @@ Proof.
         -- pcbn. rewrite Q3, Q4. pcbn. congruence.
         -- pcbn. rewrite Q12. pcbn. exact Hnf.
         -- pcbn. intros d Hd. injection Hd as <-. exists i. rewrite Q3, Q1. pcbn. split; assumption.
+        -- pcbn. intros _. rewrite U1. reflexivity.
     + (* first open *)
       set (d := next s).
       assert (Hack0 : ack s = 0) by (pose proof (I_v s HI) as Pv; rewrite Ev in Pv; exact Pv).
@@ -337,11 +340,12 @@ Proof.
         -- congruence.
         -- rewrite F13. unfold s2. pcbn. exact Hnf.
         -- intros d' Hd'. injection Hd' as <-. exists (ninodes s2). split; assumption.
+        -- intros _. assumption.
   - (* HUpdate *)
     destruct (live s) as [d|] eqn:El.
     + assert (I1 : Inv (exec1 s (PDbApply d))) by (apply step_inv; [assumption|exact I]).
       split; [apply Safe_cons; [assumption|now apply Safe_nil]|].
-      pcbn. constructor; [assumption|pcbn; assumption..|]. pcbn. rewrite El. exact Hlive.
+      pcbn. constructor; [assumption|pcbn; assumption..| |]; pcbn; [rewrite El; exact Hlive|intros _; apply Hupd; congruence].
     + split; [now apply Safe_nil|exact HG].
   - (* HSync *)
     destruct (live s) as [d|] eqn:El.
@@ -351,7 +355,7 @@ Proof.
       { apply step_inv; [assumption|]. pcbn. rewrite <- Hsame, Ei. repeat split; try discriminate.
         intros i' c [H|H] Hc; injection H as <-; rewrite Es in Hc; injection Hc as <-; rewrite updf_same; pcbn; lia. }
       split; [repeat (apply Safe_cons; [assumption|]); now apply Safe_nil|].
-      pcbn. constructor; [assumption|pcbn; assumption..|]. pcbn. rewrite El. exact Hlive.
+      pcbn. constructor; [assumption|pcbn; assumption..| |]; pcbn; [rewrite El; exact Hlive|intros _; apply Hupd; congruence].
     + split; [now apply Safe_nil|exact HG].
   - (* HClose *)
     destruct (live s) as [d|] eqn:El.
@@ -362,7 +366,7 @@ Proof.
       { apply step_inv; [assumption|]. pcbn. rewrite <- Hsame, Ei. repeat split; try discriminate.
         intros i' c [H|H] Hc; injection H as <-; rewrite Es in Hc; injection Hc as <-; rewrite updf_same; pcbn; lia. }
       split; [repeat (apply Safe_cons; [assumption|]); now apply Safe_nil|].
-      pcbn. constructor; [assumption|pcbn; assumption..|]. pcbn. discriminate.
+      pcbn. constructor; [assumption|pcbn; assumption..| |]; pcbn; [discriminate|intros H; now contradiction H].
     + split; [now apply Safe_nil|exact HG].
   - (* HRecover *)
     destruct (live s) as [old|] eqn:El; [|split; [now apply Safe_nil|exact (bump_good _ _ HG)]].
@@ -419,6 +423,32 @@ Proof.
       * rewrite Q3, Q4. unfold s4. pcbn. congruence.
       * rewrite Q12. unfold s4. pcbn. rewrite F13. unfold s2, s1. pcbn. exact Hnf.
       * rewrite Q8. unfold s4. pcbn. intros d' Hd'. injection Hd' as <-. exists (ninodes s2). rewrite Q3, Q1. pcbn. split; assumption.
+      * intros _. rewrite U6. reflexivity.
+  - (* HRecoverStop *)
+    destruct (live s) as [old|] eqn:El; [|split; [now apply Safe_nil|exact (bump_good _ _ HG)]].
+    destruct (Hlive old eq_refl) as [i [Ei Es]].
+    set (d := next s).
+    assert (I1 : Inv (exec1 (bump (HRecoverStop clean) s) (PMkDb d))) by (apply step_inv; [assumption|pcbn; unfold d; lia]).
+    set (s1 := exec1 (bump (HRecoverStop clean) s) (PMkDb d)) in *.
+    assert (G1 : Good s1).
+    { constructor; [assumption|unfold s1; pcbn..]; try assumption.
+      - rewrite El. exact Hlive.
+      - intros _. apply Hupd. congruence. }
+    destruct clean; [|split; [apply Safe_cons; [assumption|now apply Safe_nil]|exact G1]].
+    assert (I2 : Inv (exec1 s1 PRemoveUpd)) by (apply step_inv; [assumption|exact I]).
+    destruct (removes_safe (remove_nat old (d :: v_dbs s)) (exec1 s1 PRemoveUpd) old I2) as [S3 [P3 [U3 V3]]].
+    { unfold s1. pcbn. intros i' x Hi' Hx. rewrite Ei in Hi'. injection Hi' as <-. congruence. }
+    { rewrite remove_nat_In. tauto. }
+    set (s3 := exec (map PRemoveDb (remove_nat old (d :: v_dbs s))) (exec1 s1 PRemoveUpd)) in *.
+    split.
+    + apply Safe_cons; [assumption|]. fold s1. unfold cleanup. apply Safe_cons; assumption.
+    + change (exec (PMkDb d :: cleanup (d :: v_dbs s) old) (bump (HRecoverStop true) s)) with s3.
+      destruct P3 as [Q1 [Q2 [Q3 [Q4 [Q5 [Q6 [Q7 [Q8 [Q9 [Q10 [Q11 Q12]]]]]]]]]]].
+      constructor; [now apply Safe_end in S3|..].
+      * rewrite Q3, Q4. unfold s1. pcbn. exact Hsame.
+      * rewrite Q12. unfold s1. pcbn. exact Hnf.
+      * rewrite Q8, Q3, Q1. unfold s1. pcbn. rewrite El. exact Hlive.
+      * intros _. rewrite U3. reflexivity.
 Qed.
 
 Lemma run_inv hs : forall k s, Good s -> Inv (run hs k s).
@@ -439,7 +469,7 @@ Proof. apply eras_good_from. exact Good0. Qed.
 (* a reopen of a good state succeeds, reports at least the acknowledged batches and nothing that was never applied *)
 Lemma good_reopen s : Good s -> exists b, reopen s = Some b /\ ack s <= b /\ b <= top (exec (expand HOpen s) (bump HOpen s)).
 Proof.
-  intros HG. destruct (hop_safe_good HOpen s HG) as [_ HG']. pose proof HG as [HI Hsame Hnf Hlive].
+  intros HG. destruct (hop_safe_good HOpen s HG) as [_ HG']. pose proof HG as [HI Hsame Hnf Hlive Hupd].
   unfold reopen, reopen_gen. fold (expand HOpen s).
   set (s' := exec (expand HOpen s) (bump HOpen s)) in *.
   rewrite (G_nf s' HG').
@@ -482,4 +512,177 @@ Proof.
   cbn [updates]. unfold expand. cbn [expand_gen]. rewrite Hl.
   destruct (IH (exec [PDbApply d] (bump HUpdate s)) d) as [H1 H2]; [cbn; assumption|].
   split; [assumption|]. rewrite H2. cbn. rewrite updf_same. cbn. lia.
+Qed.
+
+(* ---- installs: given up before the switch, or cut by a crash ---- *)
+
+(* an install that stops before the switch leaves the live DB, every DB's content and the acknowledged count alone *)
+Lemma stop_unchanged clean s old : Good s -> live s = Some old ->
+  let s' := exec (expand (HRecoverStop clean) s) (bump (HRecoverStop clean) s) in
+  live s' = Some old /\ dbs s' = dbs s /\ ack s' = ack s /\ v_cur s' = v_cur s /\ d_cur s' = d_cur s /\ inodes s' = inodes s.
+Proof.
+  intros HG El. pose proof HG as [HI Hsame Hnf Hlive Hupd]. destruct (Hlive old El) as [i [Ei Es]].
+  unfold expand. cbn [expand_gen]. rewrite El. cbn zeta.
+  destruct clean; [|cbn; repeat split; assumption].
+  set (d := next s). set (s1 := exec1 (bump (HRecoverStop true) s) (PMkDb d)).
+  assert (I1 : Inv s1) by (apply step_inv; [now apply bump_inv|cbn; unfold d; lia]).
+  assert (I2 : Inv (exec1 s1 PRemoveUpd)) by (apply step_inv; [assumption|exact I]).
+  destruct (removes_safe (remove_nat old (d :: v_dbs s)) (exec1 s1 PRemoveUpd) old I2) as [_ [P3 _]].
+  { unfold s1. pcbn. intros i' x Hi' Hx. rewrite Ei in Hi'. injection Hi' as <-. congruence. }
+  { rewrite remove_nat_In. tauto. }
+  change (exec (PMkDb d :: cleanup (d :: v_dbs s) old) (bump (HRecoverStop true) s))
+    with (exec (map PRemoveDb (remove_nat old (d :: v_dbs s))) (exec1 s1 PRemoveUpd)).
+  destruct P3 as [Q1 [Q2 [Q3 [Q4 [Q5 [Q6 [Q7 [Q8 [Q9 [Q10 [Q11 Q12]]]]]]]]]]].
+  rewrite Q8, Q7, Q10, Q3, Q4, Q1. unfold s1. pcbn. repeat split; assumption.
+Qed.
+
+(* what a reopen of a good state with an existing "current" reports *)
+Lemma reopen_existing s i c : Good s -> v_cur s = Some i -> i_synced (inodes s i) = Some c ->
+  reopen s = Some (mem (dbs s c)).
+Proof.
+  intros HG Ev Hs. pose proof HG as [HI Hsame Hnf Hlive Hupd].
+  pose proof (I_v s HI) as Pv. rewrite Ev in Pv. destruct (points_cur _ _ _ _ Pv Hs) as [Hin _].
+  unfold reopen, reopen_gen. cbn [expand_gen]. rewrite Ev. unfold read_cur. rewrite Ev, (I_vd s HI i Ev), Hs.
+  assert (Hm : mem_nat c (v_dbs s) = true) by now apply mem_nat_In. rewrite Hm.
+  assert (I1 : Inv (exec1 (bump HOpen s) PRemoveUpd)) by (apply step_inv; [now apply bump_inv|exact I]).
+  destruct (removes_safe (remove_nat c (v_dbs s)) (exec1 (bump HOpen s) PRemoveUpd) c I1) as [_ [P1 _]].
+  { cbn. intros i' x Hi' Hx. rewrite Ev in Hi'. injection Hi' as <-. congruence. }
+  { rewrite remove_nat_In. tauto. }
+  rewrite exec_app. unfold cleanup.
+  change (exec (PRemoveUpd :: map PRemoveDb (remove_nat c (v_dbs s))) (bump HOpen s))
+    with (exec (map PRemoveDb (remove_nat c (v_dbs s))) (exec1 (bump HOpen s) PRemoveUpd)).
+  destruct P1 as [Q1 [Q2 [Q3 [Q4 [Q5 [Q6 [Q7 [Q8 [Q9 [Q10 [Q11 Q12]]]]]]]]]]].
+  set (s2 := exec (map PRemoveDb (remove_nat c (v_dbs s))) (exec1 (bump HOpen s) PRemoveUpd)) in *.
+  change (exec [PSetLive (Some c)] s2) with (set_live s2 (Some c)).
+  cbn [failed set_live live dbs]. rewrite Q12, Q7. cbn. rewrite Hnf. reflexivity.
+Qed.
+
+Section Install.
+  Variables (old d n : nat) (B : dbst).
+
+  Definition okp (p : prim) : Prop :=
+    match p with
+    | PWriteUpd x => x = d
+    | PDbApply _ | PDbFlush _ | PDbLoad _ _ | PFail => False
+    | _ => True
+    end.
+
+  Record Mid (s : st) : Prop := {
+    M_tgt : forall i c, v_cur s = Some i \/ d_cur s = Some i -> i_synced (inodes s i) = Some c -> c = old \/ c = d;
+    M_old : dbs s old = B;
+    M_new : dbs s d = {| mem := n; dur := n |};
+    M_upd : forall j c, v_upd s = Some j -> i_synced (inodes s j) = Some c \/ i_data (inodes s j) = Some c -> c = d;
+    M_some : v_cur s <> None /\ d_cur s <> None
+  }.
+
+  Lemma mid_step s p : Inv s -> Mid s -> okp p -> Mid (exec1 s p).
+  Proof.
+    intros HI HM Hok. pose proof HM as [Mt Mo Mn Mu [Mv Md]].
+    assert (Hlt : forall i, v_cur s = Some i \/ d_cur s = Some i -> i < ninodes s).
+    { intros i [E|E]; [pose proof (I_v s HI) as P|pose proof (I_d s HI) as P]; rewrite E in P; cbn in P; pts P; assumption. }
+    destruct p; cbn [okp] in Hok; try contradiction; cbn [exec1].
+    - constructor; cbn; try assumption. now split.
+    - (* PSyncDir *) constructor; cbn; try assumption.
+      + intros i c [E|E]; apply Mt; now left.
+      + now split.
+    - (* PCreateUpd *) constructor; cbn; try assumption.
+      + intros i c E. rewrite updf_other by (apply Hlt in E; lia). now apply Mt.
+      + intros j c E. injection E as <-. rewrite updf_same. cbn. intros [H|H]; discriminate.
+      + now split.
+    - (* PWriteUpd *) subst d0. destruct (v_upd s) as [j|] eqn:Ej; [|exact HM].
+      destruct (I_vu s HI j Ej) as [Hv Hd].
+      constructor; cbn; try assumption.
+      + intros i c E. rewrite updf_other by (destruct E; congruence). now apply Mt.
+      + intros j' c E. rewrite Ej in E. injection E as <-. rewrite updf_same. cbn. intros [H|H]; [|congruence].
+        apply (Mu j c eq_refl). now left.
+      + now split.
+    - (* PSyncUpd *) destruct (v_upd s) as [j|] eqn:Ej; [|exact HM].
+      destruct (I_vu s HI j Ej) as [Hv Hd].
+      constructor; cbn; try assumption.
+      + intros i c E. rewrite updf_other by (destruct E; congruence). now apply Mt.
+      + intros j' c E. rewrite Ej in E. injection E as <-. rewrite updf_same. cbn. intros [H|H]; apply (Mu j c eq_refl); now right.
+      + now split.
+    - (* PRename *) destruct (v_upd s) as [j|] eqn:Ej; [|exact HM].
+      constructor; cbn; try assumption.
+      + intros i c [E|E] Hc; [injection E as <-; right; apply (Mu j c eq_refl); now left|apply (Mt i c); [now right|assumption]].
+      + discriminate.
+      + split; [discriminate|assumption].
+    - (* PRemoveUpd *) constructor; cbn; try assumption; [discriminate|now split].
+    - constructor; cbn; try assumption. now split.
+    - constructor; cbn; try assumption. now split.
+    - constructor; cbn; try assumption. now split.
+  Qed.
+
+  Lemma mid_prefix ps : forall s, Safe ps s -> Forall okp ps -> Mid s -> forall k, Mid (exec (firstn k ps) s).
+  Proof.
+    induction ps as [|p ps IH]; intros s HS Hok HM k; [now rewrite firstn_nil|].
+    destruct k as [|k]; [exact HM|]. cbn [firstn]. change (exec (p :: firstn k ps) s) with (exec (firstn k ps) (exec1 s p)).
+    inversion Hok as [|? ? Hp Hps]; subst. apply IH; [intros k'; exact (HS (S k'))|assumption|].
+    apply mid_step; [exact (HS 0)|assumption|assumption].
+  Qed.
+End Install.
+
+Lemma okp_cleanup d l x : Forall (okp d) (cleanup l x).
+Proof. unfold cleanup. constructor; [exact I|]. induction (remove_nat x l); constructor; [exact I|assumption]. Qed.
+
+(* an install cut by a crash at any primitive step is all or nothing: the reopened table shows the snapshot (n
+   batches) or what the old DB held (between its durable and its volatile content) *)
+Theorem recover_old_or_new n s old pick k : Good s -> live s = Some old -> mem (dbs s old) <= n ->
+  exists b, reopen (crash pick (exec (firstn k (expand (HRecover n) s)) (bump (HRecover n) s))) = Some b /\
+            (b = n \/ dur (dbs s old) <= b <= mem (dbs s old)).
+Proof.
+  intros HG El Hn. pose proof HG as [HI Hsame Hnf Hlive Hupd]. destruct (Hlive old El) as [i [Ei Es]].
+  destruct (hop_safe_good (HRecover n) s HG) as [HS _].
+  set (sk := exec (firstn k (expand (HRecover n) s)) (bump (HRecover n) s)).
+  assert (Ik : Inv sk) by apply HS.
+  pose proof (crash_good pick sk Ik) as Gc.
+  set (d := next s).
+  assert (Hod : old <> d).
+  { pose proof (I_v s HI) as Pv. rewrite Ei in Pv. destruct (points_cur _ _ _ _ Pv Es) as [Hin _].
+    apply (I_nv s HI) in Hin. unfold d. lia. }
+  (* where the durable "current" points *)
+  assert (T : exists i' c, d_cur sk = Some i' /\ i_synced (inodes sk i') = Some c /\
+                           ((c = old /\ dbs sk old = dbs s old) \/ (c = d /\ dbs sk d = {| mem := n; dur := n |}))).
+  { set (rest := publish d ++ [PSetLive (Some d)] ++ cleanup (d :: v_dbs s) d ++ [PAck n]).
+    set (s2 := exec1 (exec1 (bump (HRecover n) s) (PMkDb d)) (PDbLoad d n)).
+    assert (Ex : expand (HRecover n) s = PMkDb d :: PDbLoad d n :: rest).
+    { unfold expand. cbn [expand_gen]. rewrite El.
+      replace (n <? mem (dbs s old)) with false by (symmetry; apply Nat.ltb_ge; lia). reflexivity. }
+    assert (T2 : forall k', exists i' c, d_cur (exec (firstn k' rest) s2) = Some i' /\
+                   i_synced (inodes (exec (firstn k' rest) s2) i') = Some c /\
+                   ((c = old /\ dbs (exec (firstn k' rest) s2) old = dbs s old) \/
+                    (c = d /\ dbs (exec (firstn k' rest) s2) d = {| mem := n; dur := n |}))).
+    { intros k'.
+      assert (M2 : Mid old d n (dbs s old) s2).
+      { constructor; unfold s2; pcbn.
+        - intros i' c E Hc. rewrite <- Hsame, Ei in E. assert (i' = i) by (destruct E; congruence). subst i'.
+          left. congruence.
+        - now rewrite updf_other.
+        - now rewrite updf_same.
+        - intros j c E. rewrite Hupd in E by congruence. discriminate.
+        - rewrite <- Hsame, Ei. split; discriminate. }
+      assert (S2 : Safe rest s2).
+      { intros k''. specialize (HS (S (S k''))). rewrite Ex in HS. exact HS. }
+      assert (Ok : Forall (okp d) rest).
+      { unfold rest, publish. repeat (apply Forall_app; split).
+        - repeat constructor.
+        - repeat constructor.
+        - apply okp_cleanup.
+        - repeat constructor. }
+      pose proof (mid_prefix old d n (dbs s old) rest s2 S2 Ok M2 k') as [Mt Mo Mn Mu [Mv Md]].
+      destruct (d_cur (exec (firstn k' rest) s2)) as [i'|] eqn:Ed; [|congruence].
+      pose proof (I_d _ (S2 k')) as Pd. rewrite Ed in Pd. cbn [points] in Pd. pts Pd.
+      exists i', c. split; [reflexivity|]. split; [assumption|].
+      destruct (Mt i' c (or_intror eq_refl) Hs) as [->| ->]; [left|right]; split; try reflexivity; assumption. }
+    unfold sk. rewrite Ex. destruct k as [|[|k]].
+    - exists i, old. cbn. rewrite <- Hsame. repeat split; try assumption. left. now split.
+    - exists i, old. cbn. rewrite <- Hsame. repeat split; try assumption. left. now split.
+    - exact (T2 k). }
+  destruct T as [i' [c [Ed [Hc Hcase]]]].
+  assert (R : reopen (crash pick sk) = Some (mem (dbs (crash pick sk) c))).
+  { apply (reopen_existing (crash pick sk) i' c Gc); cbn; [exact Ed|now rewrite Hc]. }
+  rewrite R. eexists. split; [reflexivity|]. cbn.
+  destruct Hcase as [[-> Hdb]|[-> Hdb]]; rewrite Hdb.
+  - right. destruct (I_db s HI old). lia.
+  - left. cbn. lia.
 Qed.
